@@ -28,6 +28,8 @@
 //   decmt <threads> <flags> <limthr> <limstop> <sets> <chunk> <hex>
 //          with the H3 hook: "D<live>" = bytes live when SEQ_BLOCK_DIRECT_INIT has finished (deterministic: no workers,
 //          empty queue, cache cleared)
+//   decmts <outwin> <threads> <flags> <limthr> <limstop> <sets> <chunk> <hex>
+//          decmt with a slow consumer: only <outwin> bytes of output space per lzma_code() call
 //   decmtw <size> <ms> <count> <threads> <flags> <limthr> <limstop> <sets> <chunk> <hex>
 //          decmt with a slow allocator: the first <count> requests of exactly <size> bytes take <ms> milliseconds
 //   idx <limit> <sets> <chunk> <hex>        -> lzma_index_decoder
@@ -151,6 +153,7 @@ static uint64_t sets_value(const char *tok, uint64_t needed)
 }
 
 static uint32_t crc_acc;
+static size_t out_window = 1 << 16;      // output space offered per lzma_code() call (<= 64 KiB)
 
 // Runs a decoder that has already been initialised in *strm over in[0..len), `chunk` bytes per lzma_code() call
 // (LZMA_FINISH with the last piece). Prints the event trace. Returns the final lzma_ret.
@@ -169,7 +172,7 @@ static lzma_ret run_decoder(lzma_stream *strm, const uint8_t *in, size_t len, si
 	if (chunk == 0) chunk = 1;
 	strm->next_in = in;
 	strm->avail_in = 0;
-	for (int iter = 0; iter < 2000000; ++iter) {
+	for (int iter = 0; iter < 20000000; ++iter) {
 		if (strm->avail_in == 0 && pos < len) {
 			size_t n = len - pos < chunk ? len - pos : chunk;
 			strm->next_in = in + pos;
@@ -178,10 +181,10 @@ static lzma_ret run_decoder(lzma_stream *strm, const uint8_t *in, size_t len, si
 		}
 		lzma_action action = pos >= len ? LZMA_FINISH : LZMA_RUN;
 		strm->next_out = outbuf;
-		strm->avail_out = sizeof(outbuf);
+		strm->avail_out = out_window;
 		size_t in_before = strm->avail_in;
 		ret = lzma_code(strm, action);
-		size_t produced = sizeof(outbuf) - strm->avail_out;
+		size_t produced = out_window - strm->avail_out;
 		if (produced > 0) {
 			crc_acc = lzma_crc32(outbuf, produced, crc_acc);
 			*out_total += produced;
@@ -318,7 +321,7 @@ static void op_decmt(hp_line *l, int o)
 		free(s.buf);
 	}
 	c09_counter cnt; lzma_allocator al; c09_counter_init(&cnt, &al);
-	if (o > 0) {
+	if (o == 3) {
 		cnt.delay_size = hp_u64(l->tok[1]);
 		cnt.delay_ms = (uint32_t)hp_u64(l->tok[2]);
 		cnt.delay_count = (uint32_t)hp_u64(l->tok[3]);
@@ -329,8 +332,13 @@ static void op_decmt(hp_line *l, int o)
 	uint64_t out_total = 0;
 	printf("I%d/%" PRIu64 "/%" PRIu64 " ", (int)ret, lzma_memusage(&strm), lzma_memlimit_get(&strm));
 	if (have_hook) { mt_ev_cnt = &cnt; lzma_verif_mt_event = mt_ev_cb; }
+	if (o == 1) {
+		out_window = (size_t)hp_u64(l->tok[1]);
+		if (out_window == 0 || out_window > (1 << 16)) out_window = 1 << 16;
+	}
 	if (ret == LZMA_OK)
 		ret = run_decoder(&strm, in, len, chunk, &s, &cnt, false, &out_total);
+	out_window = 1 << 16;
 	printf("R%d", (int)ret);
 	uint64_t in_total = strm.total_in;
 	uint32_t crc = crc_acc;
@@ -671,6 +679,8 @@ int main(void)
 			op_dec(&l);
 		} else if (!strcmp(op, "decmt") && l.ntok == 8) {
 			op_decmt(&l, 0);
+		} else if (!strcmp(op, "decmts") && l.ntok == 9) {
+			op_decmt(&l, 1);
 		} else if (!strcmp(op, "decmtw") && l.ntok == 11) {
 			op_decmt(&l, 3);
 		} else if (!strcmp(op, "idx") && l.ntok == 5) {
